@@ -168,6 +168,7 @@ struct Req
     std::vector<int> cpath;
     u64 arg = 0;
     u64 arg2 = 0;
+    bool via_const_view = false; // read-only ops: go through View<const Byte> obtained from the mutable view by conversion
     const std::vector<Decision>* script = nullptr;
     long long stop_at = -1; // M_VISIT_FULL: callback number that returns true (1-based), -1 never
     const void* tree = nullptr; // M_ENCODE: const Node*
